@@ -151,6 +151,10 @@ func Sorted(w *load.World, c *core.Collector) {
 		}
 	}
 	c.Count("binary_searches_in_cluster", n)
+	if n == 0 {
+		// membership by map or linear scan needs no order: nothing to require
+		c.Add("SORTED", "no-binary-search", core.OK, "", "no binary search in the cluster package", props...)
+	}
 	// the fan-out bookkeeping may also be rewritten with a map or a linear scan, which needs no order:
 	// the rule only fires when a binary search is present.
 }
